@@ -137,6 +137,7 @@ func (t *thread) advance(d *Term) {
 		later := r.tt.Cmp("bvslt", r.now, tm.deadline)
 		r.now = r.tt.Ite(later, tm.deadline, r.now)
 		r.fire(tm)
+		t.hpoints++ // mirrored by the virtual-time shim (HPoint after each firing)
 		t.quiesceWait()
 	}
 	r.now = target
